@@ -79,7 +79,7 @@ func init() {
 		pm := *groups[pkg]
 		pm.Name, pm.Pkg, pm.HarnessDir, pm.Schema = pkg+"pm", "./"+pkg+"pm", pkg, pkg
 		pm.FmParams = "paths=source_relative,apiversion=v2,filepermessage=true"
-		pm.Only = `_(All|Msgs|Node|One|Maps|Mix|Req|Marshal_|Unmarshal_)|^H_C0[67]_[ST](Int32|String|Bool|Sfixed64|Enum)`
+		pm.Only = `_(X?All|Msgs|Node|One|Maps|Mix|Req|Marshal_|Unmarshal_)|^H_C0[67]_[ST](Int32|String|Bool|Sfixed64|Enum)`
 		groups[pm.Name] = &pm
 		us := *groups[pkg]
 		us.Name, us.Pkg, us.HarnessDir, us.Schema = pkg+"u", "./"+pkg+"u", pkg, pkg
